@@ -68,9 +68,9 @@ def determinism(pids, n=24, seed=0):
                     if m:
                         d[int(m.group(1))] = m.group(2)
             runs.append(d)
-        bad = [i for i in idx if len({r.get(i) for r in runs}) != 1]
+        bad = [i for i in idx if len({r.get(i) for r in runs}) != 1 or runs[0].get(i) is None]      # a missing digest (child died) counts as a divergence
         report[pid] = dict(cases=n, executions=3 * n, layouts="1 process / 4 processes / 3 processes with PYTHONHASHSEED=12345",
-                           diverged=bad, wall_s=round(time.time() - t0, 1))
+                           diverged=bad, digests={str(i): runs[0].get(i) for i in idx[:6]}, wall_s=round(time.time() - t0, 1))
         print("determinism %s: %d cases x 3 executions -> %s (%.0fs)" % (pid, n, "OK" if not bad else "DIVERGED at %s" % bad, time.time() - t0))
         if bad:
             ok = False
@@ -159,7 +159,7 @@ def main(argv):
     if argv[0] == "_detchild":
         return det_child(argv[1], [int(x) for x in argv[3:]], int(argv[2]))
     if argv[0] == "determinism":
-        return determinism(argv[1:] or props.CLAIMED, n=int(os.environ.get("VERIF_DET_N", "24")))
+        return determinism(argv[1:] or props.CLAIMED, n=int(os.environ.get("VERIF_DET_N", "48")))
     if argv[0] == "sensitivity":
         return sensitivity(argv[1:] or None)
     print(__doc__)
